@@ -299,6 +299,7 @@ func genDigest(t *rapid.T) DigestCase {
 			c.Script = append(c.Script, Edit{Op: "swap", Name: inSet("swapa"), Name2: inSet("swapb")})
 		}
 	}
+	c.FailedCallFirst = rapid.IntRange(0, 9).Draw(t, "failed_call_first") == 0
 	return c
 }
 
